@@ -1,0 +1,69 @@
+//go:build verif
+
+package gorums
+
+import "sync/atomic"
+
+// This file is only compiled with the "verif" build tag. It provides yield
+// points for external schedule exploration and a few read-only or test-only
+// accessors. None of it is part of the gorums API.
+
+var verifHook atomic.Pointer[func(point string, node uint32)]
+
+// VerifSetHook installs f as the function invoked at every verif point.
+// A nil f removes the hook.
+func VerifSetHook(f func(point string, node uint32)) {
+	if f == nil {
+		verifHook.Store(nil)
+		return
+	}
+	verifHook.Store(&f)
+}
+
+func verifPoint(point string, c *channel) {
+	if f := verifHook.Load(); f != nil {
+		var id uint32
+		if c != nil && c.node != nil {
+			id = c.node.id
+		}
+		(*f)(point, id)
+	}
+}
+
+func verifSrvPoint(point string) {
+	if f := verifHook.Load(); f != nil {
+		(*f)(point, 0)
+	}
+}
+
+// VerifRouterCount returns the number of response routers registered on n.
+func VerifRouterCount(n *RawNode) int {
+	if n == nil || n.channel == nil {
+		return 0
+	}
+	n.channel.responseMut.Lock()
+	defer n.channel.responseMut.Unlock()
+	return len(n.channel.responseRouters)
+}
+
+// VerifNewMessage returns a message prepared for unmarshaling a request
+// (response == false) or a response (response == true).
+func VerifNewMessage(response bool) *Message {
+	if response {
+		return newMessage(responseType)
+	}
+	return newMessage(requestType)
+}
+
+// VerifSetLastErr sets the last error recorded for n.
+func VerifSetLastErr(n *RawNode, err error) {
+	n.channel.setLastErr(err)
+}
+
+// VerifChannelFlags reports the connection flags of n's channel.
+func VerifChannelFlags(n *RawNode) (established, broken bool) {
+	if n == nil || n.channel == nil {
+		return false, false
+	}
+	return n.channel.connEstablished.get(), n.channel.streamBroken.get()
+}
